@@ -592,6 +592,65 @@ def check_witnesses(ctx):
                 ok = False
     ctx.obligation("witness programs: runtime values inside the static types of their probes", ok, "correspondence")
 
+# ----------------------------------------------------------------- scope of a narrowing
+
+NEVER_EXITS = {"return": "return -1", "throw": "throw unchecked \"x\""}
+
+
+def scope_programs(seed):
+    """A nilable local `a` is narrowed by `<exit> if !a` (the other branch never completes) INSIDE a construct whose end the
+    run reaches with `a == nil`; after the construct `a` is used as an Int. `a` may be nil there, so the program must be
+    rejected; if it is accepted, running it puts nil into a variable of static type Int."""
+    out = []
+    k = 0
+    for neg in ("if !a", "unless a"):
+        for form in ("modifier", "block"):
+            def guard(stmt):
+                if form == "modifier":
+                    return ["%s %s" % (stmt, neg)]
+                return [neg, "  " + stmt, "end"]
+            shapes = []
+            for ex, stmt in NEVER_EXITS.items():
+                shapes.append(("if-%s" % ex, ["if n < 100"] + ["  " + l for l in guard(stmt)] + ["  println((a + 1).inspect)", "end"]))
+                shapes.append(("unless-%s" % ex, ["unless n >= 100"] + ["  " + l for l in guard(stmt)] + ["end"]))
+                shapes.append(("if-else-%s" % ex, ["if n < 100"] + ["  " + l for l in guard(stmt)] + ["else", "  println(0)", "end"]))
+            shapes.append(("while-break", ["var i = 0", "while i < 3", "  i += 1"] + ["  " + l for l in guard("break")] + ["  println((a + i).inspect)", "end"]))
+            shapes.append(("while-continue", ["var i = 0", "while i < 3", "  i += 1"] + ["  " + l for l in guard("continue")] + ["  println((a + i).inspect)", "end"]))
+            shapes.append(("loop-break", ["loop"] + ["  " + l for l in guard("break")] + ["  break", "end"]))
+            shapes.append(("for-continue", ["for i in [1, 2]"] + ["  " + l for l in guard("continue")] + ["end"]))
+            for name, body in shapes:
+                k += 1
+                mod = "NS%sx%d" % (seed, k)
+                src = "\n".join(["module %s" % mod, "  def pick(n: Int): Int?", "    return nil if n > 50", "    n", "  end",
+                                 "  def f(n: Int): Int", "    var a: Int? = %s.pick(n)" % mod] + ["    " + l for l in body]
+                                + ["    a + 1", "  end", "end", "println(%s.f(170).inspect)" % mod]) + "\n"
+                out.append(("%s/%s/%s" % (name, neg, form), src))
+    return out
+
+
+def check_scope(ctx):
+    progs = scope_programs(ctx.seed)
+    res = vlib.run_programs([{"id": "ns%d" % i, "src": src, "timeout_ms": 8000} for i, (_, src) in enumerate(progs)])
+    ok, reported = True, 0
+    for (name, src), a in zip(progs, res):
+        ctx.case(("scope", name), sample={"shape": name, "outcome": a["outcome"]})
+        ctx.stat("scope:" + a["outcome"])
+        if a["outcome"] == "rejected":
+            continue
+        if reported >= 3:
+            ok = False
+            continue
+        reported += 1
+        if ctx.violation("property-fails", {"program": src, "shape": name},
+                         "a narrowing made under a branch that never completes is still in force after the enclosing %s: `a + 1` is "
+                         "accepted with `a: Int?` possibly nil; the run ends with %s %s %r"
+                         % (name.split("/")[0], a["outcome"], (a.get("panic") or "")[:120], a.get("stdout", "")[-60:])):
+            ok = False
+        else:
+            reported -= 1
+    ctx.obligation("scope of narrowings: %d programs using a nilable local as Int after the construct in which it was narrowed are "
+                   "rejected" % len(progs), ok, "search")
+
 
 def run(ctx):
     ctx.rule = ("conditions of depth <= 3 over 1-3 typed locals (identifier, literal, !, &&, ||, ??, ==, !=, <:, <<:) with parameter "
@@ -601,10 +660,18 @@ def run(ctx):
     ctx.prove("ElkVerif.Props.C02")
     if ctx.replay:
         rp = json.load(open(ctx.replay))
+        if "line" not in rp["input"] and "program" in rp["input"]:
+            a = vlib.run_programs([{"id": "r", "src": rp["input"]["program"], "timeout_ms": 8000}])[0]
+            print("replayed program:", a["outcome"], (a.get("panic") or "")[:160], repr(a.get("stdout", ""))[-100:])
+            if a["outcome"] != "rejected":
+                ctx.violation("property-fails", rp["input"], "replayed program is accepted and ends with %s %s"
+                              % (a["outcome"], (a.get("panic") or "")[:160]))
+            return
         check_lines(ctx, [rp["input"]["line"]], "narrowing", "R")
         return
     corpus = vlib.corpus_lines("C02")
     lines = corpus + [gen_line(ctx.rng) for _ in range(ctx.n(110, 3000))]
     check_lines(ctx, lines, "narrowing")
     check_witnesses(ctx)
+    check_scope(ctx)
     check_sweep(ctx, SWEEP + SWEEP_KNOWN)
